@@ -52,6 +52,15 @@ def toHex (n : Nat) (minDigits : Nat := 1) : String :=
   let cs := toHexAux n []
   String.ofList (List.replicate (minDigits - cs.length) '0' ++ cs)
 
+/-- what the standard adaptors must deliver on the list of items an iterator yields:
+    `count:nth(n-1):skip(n/2):step_by(3):last:nth(n):size_hint-consistent` -/
+def adaptorsTxt (items : List String) : String :=
+  let n := items.length
+  let o := fun (x : Option String) => x.getD "-"
+  let l := fun (v : List String) => if v.isEmpty then "-" else ".".intercalate v
+  let step3 := (items.zipIdx.filter fun x => x.2 % 3 == 0).map (·.1)
+  s!"{n}:{o items.getLast?}:{l (items.drop (n / 2))}:{l step3}:{o items.getLast?}:-:1"
+
 /-- answer of a handler: model answer and verdict of the property predicate on the implementation's answer -/
 structure Ans where
   model : String
